@@ -348,7 +348,9 @@ def rule_r5(ctx, sf: SqlFacts) -> RuleResult:
 
     for fnname, target_suffix in (("core.Wtp.close_db_conn", "db_conn.close"), ("core.Wtp.backup_db", "db_conn.backup")):
         f = ctx.fn(fnname)
-        res = dominating_calls(f, lambda n: is_call(n, "db_conn.commit"), lambda n, t=target_suffix: is_call(n, t))
+        res = dominating_calls(f, lambda n: is_call(n, "db_conn.commit"),
+                               lambda n, t=target_suffix: is_call(n, t) or (t == "db_conn.backup" and isinstance(n, ast.Call)
+                                                                            and unparse(n.func).startswith("shutil.copy")))
         if not res:
             raise AnalysisError("{}: call of {} vanished".format(fnname, target_suffix))
         for n, dom in res:
@@ -538,7 +540,24 @@ def rule_r8(ctx) -> RuleResult:
     return rr
 
 
+def rule_r9(ctx) -> RuleResult:
+    """'Committed content is identical when read through a new context on the same file': closing one
+    context must not take the write-ahead log away from under the others (shared with C20.R5)."""
+    from . import c20
+
+    r = c20.rule_r5(ctx)
+    rr = RuleResult("C10.R9", "closing a context deletes database files only for private temp-dir databases (shared with C20.R5)", min_instances=1)
+    for f in r.findings:
+        rr.bad(Finding("C10.R9", f.file, f.function, f.construct,
+                       f.message + "; pages committed by a context that is still open are absent for every context opened afterwards", f.line))
+    rr.cases = set(r.cases)
+    rr.obligations = r.obligations
+    rr.discharged = r.discharged
+    rr.samples = list(r.samples)
+    return rr
+
+
 def run(ctx) -> list:
     sf = SqlFacts(ctx.index)
     return [rule_r1(ctx, sf), rule_r2(ctx, sf), rule_r3(ctx, sf), rule_r4(ctx, sf), rule_r5(ctx, sf), rule_r6(ctx, sf),
-            rule_r7(ctx, sf), rule_r8(ctx)]
+            rule_r7(ctx, sf), rule_r8(ctx), rule_r9(ctx)]
